@@ -15,11 +15,12 @@ PROPS = {
 PROPS['C20'] = dict(
     modules=['specs.version', 'specs.cargo', 'contracts.cargo', 'lemmas.cargo', 'contracts.regexes'],
     bounded=['bounded.cargo'],
-    level='proof',
+    level='other',
     design_ref='DESIGN.md §4 C20',
     technique='deductive: VCs from the real AST of cargo/version.py and cargo/cfg.py + sidecar contracts, SMT-discharged; SemVer order lemmas by induction; tokenisers and whole-requirement acceptance bounded',
     level_text='SemVer comparison, construction, next_ver, requirement canonicalisation (split) and cargo_parse (per comparator count <= 2) and the cfg evaluator/parser carry contracts taken from the Cargo rule and SemVer section 11; obligations are generated from the source on each run and discharged for all values.',
     level_note='Assumed: regex tokenisation of SemVer strings and the cfg lexer (checked bounded against independent references); cargo_parse is proved for requirements of at most two comparators (all component values), longer lists are covered by the bounded layer only; lru_cache transparent.',
+    explanation='deductive proof of the listed clauses for all inputs; level is `other`, not `proof`, because one obligation (the tokeniser pattern against the SemVer identifier grammar) FAILS on the current tree as a recorded, unrepaired finding — the property does not hold there, so discharged < obligations by exactly the obligations listed under known_findings',
     not_decided=['api()/_api_of are outside the statement'],
 )
 PROPS['C13'] = dict(
